@@ -37,7 +37,7 @@ def cases(tier, seed):
     rng = random.Random('C12|%d' % seed)
     T = tier == 'thorough'
     cs = []
-    nstruct = 90 if not T else 500
+    nstruct = 180 if not T else 1500
     k = 2 if not T else 6
     for i in range(nstruct):
         cls = ['spd', 'dd', 'lap', 'cd'][i % 4]
